@@ -74,4 +74,33 @@ def RepB (hk : K → BitVec 8) (b : BucketOf K V) : Prop :=
 /-- the slots of a chain of buckets, as M3 sees them -/
 def flat (c : List (BucketOf K V)) : Slots K V := c.flatMap (·.entries)
 
+/-! ### `Map` (string keys): the `topHashMutex` word -/
+
+/-- a `bucket` of `map.go`: the packed word (three 20-bit top hashes, three presence bits, the lock bit) and the three
+key / value pointer pairs (sequentially both nil or both set: one optional pair per slot) -/
+structure BucketM (K V : Type) where
+  word : BitVec 64
+  slots : List (Option (K × V))
+
+/-- the inner loop of `Map.Load`: `for i := 0; i < 3; i++ { if !topHashMatch(hash, topHashes, i) { continue }; … }` -/
+def searchBucketM (key : K) (hash : BitVec 64) (b : BucketM K V) : Option V :=
+  orE (if Gen.topHashMatch hash b.word 0 then testSlot key b.slots 0 else none)
+    (orE (if Gen.topHashMatch hash b.word 1 then testSlot key b.slots 1 else none)
+      (if Gen.topHashMatch hash b.word 2 then testSlot key b.slots 2 else none))
+
+def searchChainM (key : K) (hash : BitVec 64) : List (BucketM K V) → Option V
+  | [] => none
+  | b :: rest => orE (searchBucketM key hash b) (searchChainM key hash rest)
+
+/-- what the word must say: the top hash stored for an occupied slot matches the hash of the key in it (nothing is
+demanded of free slots: a stale match there is rejected by the nil check) -/
+def RepM (hashOf : K → BitVec 64) (b : BucketM K V) : Prop :=
+  b.slots.length = Gen.entriesPerMapBucket ∧
+  ∀ i, i < Gen.entriesPerMapBucket →
+    (match b.slots.getD i none with
+     | some (k, _) => Gen.topHashMatch (hashOf k) b.word i = true
+     | none => True)
+
+def flatM (c : List (BucketM K V)) : Slots K V := c.flatMap (·.slots)
+
 end Model.Words
